@@ -273,12 +273,16 @@ def _sequence_to_qref(sequence, backend: SymbolicBackend):
 
 @_sequence_to_qref.register
 def _(sequence: ConstantSequence, backend: SymbolicBackend) -> ConstantSequenceV1:
-    return ConstantSequenceV1(type=sequence.type, multiplier=sequence.multiplier)
+    return ConstantSequenceV1(type=sequence.type, multiplier=backend.as_native(sequence.multiplier))
 
 
 @_sequence_to_qref.register
 def _(sequence: ArithmeticSequence, backend: SymbolicBackend) -> ArithmeticSequenceV1:
-    return ArithmeticSequenceV1(type=sequence.type, initial_term=sequence.initial_term, difference=sequence.difference)
+    return ArithmeticSequenceV1(
+        type=sequence.type,
+        initial_term=backend.as_native(sequence.initial_term),
+        difference=backend.as_native(sequence.difference),
+    )
 
 
 @_sequence_to_qref.register
@@ -290,8 +294,8 @@ def _(sequence: GeometricSequence, backend: SymbolicBackend) -> GeometricSequenc
 def _(sequence: ClosedFormSequence, backend: SymbolicBackend) -> ClosedFormSequenceV1:
     return ClosedFormSequenceV1(
         type=sequence.type,
-        sum=backend.serialize(sequence.sum),
-        prod=backend.serialize(sequence.prod),
+        sum=None if sequence.sum is None else backend.serialize(sequence.sum),
+        prod=None if sequence.prod is None else backend.serialize(sequence.prod),
         num_terms_symbol=backend.serialize(sequence.num_terms_symbol),
     )
 
